@@ -165,6 +165,27 @@ def callbacks(repo, run, m):
             return len(ps) == 1 and bool(rets) and not stores and all(r.value is not None and as_given(r.value, ps[0]) for r in rets)
         return False
     okd = all(as_given(st.value, "callback") for st in defs) and bool(defs)
+    # ... and on EVERY path: the object iterated in the step loop must be the function's own (a fresh list), never the caller's list, which user code
+    # (a callback removing itself, appending another) can mutate while it is being iterated.  The path conditions of the rebindings must cover all cases.
+    if okd:
+        import itertools
+        from ..sym import path_condition, tree_atoms, eval_bool, BoolTracker
+        bt = BoolTracker()
+        pcs = [path_condition(st, m.fn, tracker=bt)[0] for st in defs]
+        direct = [st for st in defs if not (isinstance(st.value, ast.Call) and (dotted(st.value.func) or "").startswith("self."))]
+        atoms = []
+        for pc in pcs:
+            for a in tree_atoms(pc):
+                if a not in atoms:
+                    atoms.append(a)
+        covered = len(atoms) <= 10 and all(any(eval_bool(pc, dict(zip(atoms, vals))) for pc in pcs) for vals in itertools.product((False, True), repeat=len(atoms)))
+        if len(defs) == 1 and not tree_atoms(pcs[0]):
+            covered = True          # a single unconditional normalisation (e.g. through a helper)
+        run.judged(rid, "the callback list is rebound to a fresh list on every path (conditions %s)" % [a.split("@")[0] for a in atoms], ok=covered)
+        if not covered:
+            run.report("C20.3", DS, defs[-1], "on some path (e.g. the callbacks given as a list) the callback parameter is iterated as it was passed: the caller's own list object "
+                                              "is then iterated once per step, and a callback that mutates it (removes itself, adds another) makes later callbacks be skipped or "
+                                              "unlisted ones run", text="callback list aliasing")
     run.judged(rid, "callback list construction: %s" % [src(st.value) for st in defs], ok=okd)
     if not okd:
         run.report("C20.3", DS, defs[0] if defs else m.fn, "the callback list is not taken as given (list(callback) / [callback] / [])", text="callback list construction")
